@@ -1843,6 +1843,11 @@ namespace vh
     using DM = typename DenseOf<L>::type;
     using SM = SparseOf<L, false>;
     bool reorder2 = t.nat() != 0;
+    // cell count of the State that is assigned ONTO (0: the same as the source's); with a grouped layout two different
+    // counts in one group have the same storage size
+    std::size_t ncell2 = t.nat();
+    if (ncell2 == 0)
+      ncell2 = ncell;
     auto perm1 = t.nats(ns);
     auto perm2 = t.nats(ns);
     auto vals1 = t.flts(ns * ncell);
@@ -1880,10 +1885,23 @@ namespace vh
                        .SetNumberOfGridCells(ncell)
                        .SetReorderState(reorder2)
                        .Build();
+    // the destination of the forward assignment may come from a solver for another number of cells
+    auto solver2n = B(micm::RosenbrockSolverParameters::ThreeStageRosenbrockParameters())
+                        .SetSystem(micm::System(micm::SystemParameters{ .gas_phase_ = micm::Phase{ sp2 } }))
+                        .SetReactions(procs)
+                        .SetNumberOfGridCells(ncell2)
+                        .SetReorderState(reorder2)
+                        .Build();
     auto fill = [&](auto& st, const std::vector<double>& vals)
     {
+      std::size_t nc = st.variables_.NumRows();
       for (std::size_t i = 0; i < ns; ++i)
-        st.SetConcentration(micm::Species(name(i)), std::vector<double>(vals.begin() + i * ncell, vals.begin() + (i + 1) * ncell));
+      {
+        std::vector<double> col(nc);
+        for (std::size_t c = 0; c < nc; ++c)
+          col[c] = vals[i * ncell + c % ncell];
+        st.SetConcentration(micm::Species(name(i)), col);
+      }
       for (auto& c : st.conditions_)
       {
         c.temperature_ = 280.0;
@@ -1892,7 +1910,7 @@ namespace vh
       }
     };
     auto a = solver1.GetState();
-    auto b = solver2.GetState();
+    auto b = solver2n.GetState();
     fill(a, vals1);
     fill(b, vals2);
     b = a;  // copy assignment onto a State with another name map
@@ -1906,6 +1924,9 @@ namespace vh
     auto consistent = [&](auto& x, auto& src)
     {
       if (x.variable_map_ != src.variable_map_ || x.variable_names_ != src.variable_names_)
+        return false;
+      if (x.variables_.NumRows() != src.variables_.NumRows() || x.variables_.NumColumns() != src.variables_.NumColumns() ||
+          x.rate_constants_.NumRows() != src.rate_constants_.NumRows() || x.conditions_.size() != src.conditions_.size())
         return false;
       for (auto& [nm, idx] : x.variable_map_)
         if (idx >= x.variable_names_.size() || x.variable_names_[idx] != nm)
